@@ -3,7 +3,7 @@ import FluentModel.Fallback
 /-!
 # Driver for area `fb` (C16): one `Bundles` instance, a history of requests
 
-payload = `cfg:<s|a|p>; (p = async over a stream that answers Pending once before every item)
+payload = `cfg:<s|a|p>; (p = async over a stream that answers Pending once before every item; q = p plus a second identical request in flight at the same time)
 b:<locale|_>:<brk>:<id>=<state>,…;…;<op>;…`
 
 * `b:` one bundle of the generator's sequence, in order.  `brk`: 0 `Ok(bundle)`, 1 duplicate id `dup`
@@ -149,7 +149,7 @@ def showTrace : List (Response String String String String String String × List
 def run (payload : String) : String :=
   match payload.splitOn ";" with
   | cfg :: rest =>
-    let sync? := if cfg == "cfg:s" then some true else if cfg == "cfg:a" || cfg == "cfg:p" then some false else none
+    let sync? := if cfg == "cfg:s" then some true else if cfg == "cfg:a" || cfg == "cfg:p" || cfg == "cfg:q" then some false else none
     let bsegs := rest.takeWhile (·.startsWith "b:")
     let ops := rest.dropWhile (·.startsWith "b:")
     match sync?, bsegs.mapM parseBundle, ops.mapM parseReq with
